@@ -121,15 +121,18 @@ async def merge(
     The ``iterables`` must be pre-sorted in the same order.
     """
     a_key = awaitify(key) if key is not None else None
+    # all iterators are owned from the start so that every one of them is closed
+    # even if fetching the first items or computing their keys fails or is cancelled
+    iterators = [aiter(iterable) for iterable in iterables]
+    del iterables
     # sortable iterators with position to ensure stable sort for ties
     # ties always go to the earlier iterable, for either sort direction
-    iter_heap: "list[tuple[_KeyIter[Any], int]]" = [
-        (itr, idx)
-        async for idx, itr in a_enumerate(
-            _KeyIter[Any].from_iters(iterables, reverse, a_key)
-        )
-    ]
+    iter_heap: "list[tuple[_KeyIter[Any], int]]" = []
     try:
+        async for idx, itr in a_enumerate(
+            _KeyIter[Any].from_iters(tuple(iterators), reverse, a_key)
+        ):
+            iter_heap.append((itr, idx))
         _heapq.heapify(iter_heap)
         # there are at least two iterators that need merging
         while len(iter_heap) > 1:
@@ -148,9 +151,9 @@ async def merge(
             async for item in itr.tail:
                 yield item
     finally:
-        for itr, _ in iter_heap:
-            if isinstance(itr.tail, ACloseable):
-                await itr.tail.aclose()
+        for iterator in iterators:
+            if isinstance(iterator, ACloseable):
+                await iterator.aclose()
 
 
 class ReverseLT(Generic[LT]):
